@@ -916,6 +916,13 @@ func (z *ZodStruct[T, R]) setReflectFieldValue(fieldVal reflect.Value, value any
 		return nil
 	}
 
+	// A nil pointer of the schema's own output type (*[]any, *map[any]any, ...)
+	// is nil for a pointer field of any element type
+	if fieldVal.Kind() == reflect.Pointer && valueVal.Kind() == reflect.Pointer && valueVal.IsNil() {
+		fieldVal.Set(reflect.Zero(fieldVal.Type()))
+		return nil
+	}
+
 	// Handle map type conversions (e.g., map[any]any to map[string]string)
 	if fieldVal.Type().Kind() == reflect.Map && valueVal.Type().Kind() == reflect.Map {
 		if convertedMap := z.convertMapTypes(value, fieldVal.Type()); convertedMap != nil {
@@ -3167,8 +3174,17 @@ func applyOptionalToSchema(schema core.ZodSchema) core.ZodSchema {
 		return s.Optional() // Makes it accept nil
 
 	default:
-		// For any unknown types, return as-is
-		// This ensures we don't break on custom schemas
+		// Every schema type has an Optional() method that returns its own
+		// pointer-output type, so no type switch can list all instantiations
+		// (ZodSlice[int64, *[]int64], ZodMap[...], ZodObject[...], ZodUUID[*string], ...).
+		// Reach it by name for the types not listed above.
+		if m := reflect.ValueOf(schema).MethodByName("Optional"); m.IsValid() &&
+			m.Type().NumIn() == 0 && m.Type().NumOut() == 1 {
+			if optional, ok := m.Call(nil)[0].Interface().(core.ZodSchema); ok {
+				return optional
+			}
+		}
+		// Custom schemas without Optional() are returned as-is
 		return s
 	}
 }
